@@ -296,7 +296,7 @@ func (ip *Inode) Read(atxn *alloctxn.AllocTxn, offset uint64, bytesToRead uint64
 		off += nbytes
 	}
 	util.DPrintf(10, "Read: off %d cnt %d -> %v\n", offset, count, data)
-	return data, false
+	return data, off >= ip.Size
 }
 
 // Returns number of bytes written and error
